@@ -636,3 +636,21 @@ func (g *og) jsonValue(t *ast.Type, nest int, forceNonNull bool) interface{} {
 	}
 	return nil
 }
+
+// GenSelection draws a selection set "{ ... }" for a composite type.
+func GenSelection(t *tape.Tape, w *World, schema *ast.Schema, typ *ast.Definition, f OpFeatures, maxDepth, budget int) string {
+	g := &og{t: t, w: w, schema: schema, f: f, budget: budget, maxD: maxDepth, used: map[string]int{}}
+	return g.selSet(typ, 1)
+}
+
+// GenRootField draws "field(args) { ... }" for one root field ("" if it needs variables).
+func GenRootField(t *tape.Tape, w *World, schema *ast.Schema, root *ast.Definition, name string, f OpFeatures, maxDepth, budget int) string {
+	fd := root.Fields.ForName(name)
+	if fd == nil {
+		return ""
+	}
+	f.Variables = false
+	f.Aliases = false
+	g := &og{t: t, w: w, schema: schema, f: f, budget: budget, maxD: maxDepth, used: map[string]int{}}
+	return g.field(root, fd, 1, map[string]bool{})
+}
